@@ -1,6 +1,7 @@
 package storeworld
 
 import (
+	"context"
 	"time"
 
 	"github.com/tailscale/setec/client/setec"
@@ -41,3 +42,5 @@ func (w *World) Construct(cfg setec.StoreConfig) bool {
 func (w *World) BaseConfig(declared []string) setec.StoreConfig {
 	return setec.StoreConfig{Client: w.Svc, Secrets: declared, Logf: w.Logf, TimeNow: w.NowFn, PollTicker: w.Ticker}
 }
+
+func context_bg() context.Context { return context.Background() }
